@@ -47,11 +47,43 @@ def _key_producers(eng) -> List[FunctionInfo]:
     return kp
 
 
+def _checked_key_producers(eng, kp: List[FunctionInfo]) -> Dict[str, List[FunctionInfo]]:
+    """functions that hand out a selected key only after `<key>.check_use(<use>)` on it (a key finder that does the use gate itself): use -> functions"""
+    out: Dict[str, List[FunctionInfo]] = {"sig": [], "enc": []}
+    for fn in eng.prog.all_functions():
+        if fn in kp or fn.name == "<module>":
+            continue
+        rets = [n for n in fn_nodes(fn) if isinstance(n, ast.Return) and n.value is not None]
+        if not rets or not all(isinstance(r.value, ast.Name) for r in rets):
+            continue
+        cfg = cfg_of(fn)
+        for want in ("sig", "enc"):
+            ok = True
+            for r in rets:
+                var = r.value.id
+                defs = [d for d in eng.flow._defs(fn).get(var, []) if d[0] == "assign"]
+                if not defs or not all(isinstance(d[1], ast.Call) and eng.cg.site_of.get(id(d[1])) is not None and eng.cg.site_of[id(d[1])].callees
+                                       and all(c in kp for c in eng.cg.site_of[id(d[1])].callees) for d in defs):
+                    ok = False
+                    break
+                checks = [cfg.node_of(n) for n in fn_nodes(fn) if isinstance(n, ast.Call) and isinstance(n.func, ast.Attribute) and n.func.attr == "check_use"
+                          and isinstance(n.func.value, ast.Name) and n.func.value.id == var and n.args and const_value(n.args[0]) == want]
+                checks = [c for c in checks if c is not None]
+                rn = cfg.node_of(r)
+                if not checks or rn is None or not cfg.must_pass(cfg.entry, rn, checks):
+                    ok = False
+                    break
+            if ok:
+                out[want].append(fn)
+    return out
+
+
 # ----------------------------------------------------------------------------------------------- R06.1
 def r06_1(ctx) -> None:
     eng = ctx.eng
     sig, enc = _family_scopes(eng)
     kp = _key_producers(eng)
+    ckp = _checked_key_producers(eng, kp)
     n_land = 0
     n_chk = 0
     for fn in sorted(sig | enc, key=lambda f: f.qualname):
@@ -60,7 +92,14 @@ def r06_1(ctx) -> None:
         want = "sig" if fn in sig and fn not in enc else ("enc" if fn in enc and fn not in sig else None)
         cfg = None
         for s in eng.cg.calls_in(fn):
-            if not isinstance(s.node, ast.Call) or not s.callees or not all(c in kp for c in s.callees):
+            if not isinstance(s.node, ast.Call) or not s.callees:
+                continue
+            if want is not None and all(c in ckp[want] for c in s.callees):
+                n_land += 1
+                n_chk += 1
+                ctx.ok("R06.1", f"{fn.short} :: {norm(s.node)[:60]}", f"every finder behind this call checks the use {want!r} itself")
+                continue
+            if not all(c in kp or (want is not None and c in ckp[want]) for c in s.callees) or not any(c in kp for c in s.callees):
                 continue
             par = eng.prog.parent(s.node)
             if not (isinstance(par, (ast.Assign, ast.AnnAssign))):
